@@ -168,5 +168,24 @@ theorem collect_total (h : Heap) (scs : List Scope) (hh : HeapOK (fun _ _ => Tru
   | panic p => exact ((collect_ok (fun _ _ => True) hh hs).1 p hc).elim
   | fuel => exact (collect_never_out_of_fuel scs h hc).elim
 
+
+/-- non-vacuity of the renaming relation behind `gc_invisible`: a collected heap in which slot 0 was recycled and the
+    never-collected heap in which the same list lives in slot 1 are related by the renaming 1 ↦ 0 -/
+example : HRel ⟨fun i j => i = 1 ∧ j = 0, fun _ _ => False⟩
+    { lists := [[.num 7], [.num 5]], freeLists := [], records := [], freeRecords := [], allocCount := 0 }
+    { lists := [[.num 5]], freeLists := [], records := [], freeRecords := [], allocCount := 0 } := by
+  refine ⟨?_, ?_, ?_, ?_, ?_, ?_, ?_, ?_, ?_, ?_, ?_, ?_⟩
+  · rintro i j j' ⟨_, rfl⟩ ⟨_, rfl⟩; rfl
+  · rintro i i' j ⟨rfl, _⟩ ⟨rfl, _⟩; rfl
+  · intro _ _ _ h; exact h.elim
+  · intro _ _ _ h; exact h.elim
+  · rintro i j ⟨rfl, rfl⟩; exact ⟨[.num 5], [.num 5], rfl, rfl, .cons rfl .nil⟩
+  · intro _ _ h; exact h.elim
+  · rintro i j ⟨rfl, rfl⟩; simp
+  · intro _ _ h; exact h.elim
+  · simp
+  · simp
+  · simp
+  · simp
 end C07
 end Pakhi
